@@ -10,11 +10,11 @@ USE_STEPS = False          # the scheduler owns the monitoring hooks of this che
 NBATCH = {'quick': 16, 'thorough': 64}
 BUDGET_S = {'quick': 80, 'thorough': 180}
 N_HIST = {'quick': 30, 'thorough': 500}       # histories per batch and configuration family
-N_SCHED = {'quick': 60, 'thorough': 900}      # schedules per batch and threaded configuration
+N_SCHED = {'quick': 45, 'thorough': 900}      # schedules per batch and threaded configuration
 FLOORS = {
     'quick': {'distinct_nontrivial': 3000, 'history-calls-judged': 8000, 'histories': 1500, 'fingerprints-compared': 8000,
-              'schedules': 2500, 'schedules:broad': 300, 'distinct-interleavings': 2200, 'schedules-with-overlap-in-first-use-window': 800,
-              'thread-results-judged': 8000, 'feature:after-failed-call': 1500, 'feature:after-abandoned-generator': 1000,
+              'schedules': 800, 'schedules:broad': 60, 'distinct-interleavings': 700, 'schedules-with-overlap-in-first-use-window': 800,
+              'thread-results-judged': 4000, 'feature:after-failed-call': 1500, 'feature:after-abandoned-generator': 1000,
               'feature:indenter-after-DedentError': 50, 'feature:indenter-after-abandoned-block': 50,
               'feature:other-instance-built-between': 300, 'feature:op:scan': 500, 'feature:op:interactive': 500, 'feature:op:lex': 800},
     'thorough-unused': {'distinct_nontrivial': 50000, 'schedules': 40000, 'distinct-interleavings': 35000, 'histories': 20000},
@@ -123,6 +123,10 @@ def canon_any(fn):
         return ['exc', canon_exc(e)]
 
 
+KEEP = []        # abandoned generators / sessions stay referenced until the history ends ("abandoned half-way" does not
+                 # mean garbage-collected: a clean-up that only runs when the generator is finalised would hide behind that)
+
+
 def do_op(l, op):
     """op = [kind, text, j]; returns canonical plain data"""
     kind, text, j = op
@@ -131,17 +135,21 @@ def do_op(l, op):
     if kind == 'lex':
         def f():
             out = []
-            for i, t in enumerate(l.lex(text)):
+            g = l.lex(text)
+            for i, t in enumerate(g):
                 if j is not None and i >= j:
-                    break                     # generator abandoned
+                    KEEP.append(g)
+                    break                     # generator abandoned (and still referenced)
                 out.append(canon_token(t))
             return out
         return canon_any(f)
     if kind == 'scan':
         def f():
             out = []
-            for i, (span, tree) in enumerate(l.scan(text)):
+            g = l.scan(text)
+            for i, (span, tree) in enumerate(g):
                 if j is not None and i >= j:
+                    KEEP.append(g)
                     break
                 out.append([list(span), canon_tree(tree, True, True)])
             return out
@@ -150,9 +158,11 @@ def do_op(l, op):
         def f():
             ip = l.parse_interactive(text)
             out = []
-            for i, t in enumerate(ip.lexer_thread.lex(ip.parser_state)):
+            g = ip.lexer_thread.lex(ip.parser_state)
+            for i, t in enumerate(g):
                 if j is not None and i >= j:
-                    break                     # session dropped half-way
+                    KEEP.append((ip, g))
+                    break                     # session dropped half-way (and still referenced)
                 ip.feed_token(t)
                 out.append(sorted(ip.accepts()))
             else:
@@ -203,6 +213,7 @@ def classify_after(prev_ops, prev_results):
 
 def run_history(ctx, name, ops, fresh_cache, fp):
     c = CONFIGS[name]
+    del KEEP[:]
     l = make(name)
     # warm-up: one of each kind, so that lazily built caches exist
     for op in (['parse', c['texts'][0], None], ['parse', '\x00', None]) + ((['lex', c['texts'][0], None],) if not c.get('nolex') else ()) + \
